@@ -40,9 +40,12 @@ func h11BaseText(home int, n int) (string, h11Base) {
 			return "p2:" + name, h11Base{2, nb}
 		}
 		return "p1:" + name, h11Base{1, nb}
-	case 2: // the import's prefix (m2 imports m1 as q1)
+	case 2: // the import's prefix (m2 imports m1 as q1; the submodule s1 has an import of its own: m3 as q3)
 		if home == 2 {
 			return "q1:" + name, h11Base{1, nb}
+		}
+		if home == 1 {
+			return "q3:" + name, h11Base{3, nb}
 		}
 		return "zz:" + name, h11Base{0, nb}
 	}
@@ -100,11 +103,12 @@ func H11() {
 	// an identityref leaf in m2
 	rt, rb := h11BaseText(2, n)
 	m1 := `module m1 { yang-version 1.1; namespace "urn:m1"; prefix p1; include s1;` + body[0] + ` }`
-	s1 := `submodule s1 { yang-version 1.1; belongs-to m1 { prefix p1; }` + body[1] + ` }`
+	s1 := `submodule s1 { yang-version 1.1; belongs-to m1 { prefix p1; } import m3 { prefix q3; }` + body[1] + ` }`
+	m3 := `module m3 { yang-version 1.1; namespace "urn:m3"; prefix q1; identity a; }` // its own prefix equals m2's name for m1
 	m2 := `module m2 { yang-version 1.1; namespace "urn:m2"; prefix p2; import m1 { prefix q1; }` + body[2] +
 		` typedef t { type identityref { base ` + rt + `; } } leaf r { type t; } }`
 	note(m1 + s1 + m2)
-	ms, lerrs := hLoad(m1, s1, m2)
+	ms, lerrs := hLoad(m1, s1, m2, m3)
 	check(len(lerrs) == 0, "the modules parse")
 	if len(lerrs) != 0 {
 		return
@@ -115,6 +119,8 @@ func H11() {
 	undefined := false
 	edge := make([][]bool, n)
 	resolves := func(b h11Base, k *h11Id) bool { return symAnd(b.mod == k.owner, b.name == k.name) }
+	ext := &h11Id{home: 3, owner: 3, name: 'a'} // module m3's identity: a base target outside the drawn set
+	extEdge := make([]bool, n)                  // identity i derives from m3:a
 	for i, id := range ids {
 		edge[i] = make([]bool, n)
 		for _, b := range id.bases {
@@ -124,6 +130,9 @@ func H11() {
 				edge[i][k] = symOr(edge[i][k], r)
 				found = symOr(found, r)
 			}
+			re := resolves(b, ext)
+			extEdge[i] = symOr(extEdge[i], re)
+			found = symOr(found, re)
 			undefined = symOr(undefined, symNot(found))
 		}
 	}
@@ -181,6 +190,21 @@ func H11() {
 			check((cnt == 1) == reachable[i][k], "an identity lists exactly the identities that reach it through base statements")
 		}
 		check(len(vals) <= n, "no foreign object in the list")
+	}
+	// module m3's identity lists exactly the identities that reach it
+	extObj := ms.Modules["m3"].Identity[0]
+	for i := 0; i < n; i++ {
+		reaches := extEdge[i]
+		for k := 0; k < n; k++ {
+			reaches = symOr(reaches, symAnd(reachable[i][k], extEdge[k]))
+		}
+		cnt := 0
+		for _, v := range extObj.Values {
+			if v == obj[i] {
+				cnt++
+			}
+		}
+		check((cnt == 1) == reaches, "a base reached through a submodule's own import lists exactly its derivations")
 	}
 	// the identityref leaf sees the identity its base names
 	leaf := ToEntry(ms.Modules["m2"]).Dir["r"]
